@@ -19,9 +19,11 @@ package matcher
 //@ ginv errsNotDyn := errNoWhitespace != nil && errAdjoinEmpty != nil && errMultiMismatch != nil &&
 //@        !istype(errNoWhitespace, *Error) && !istype(errAdjoinEmpty, *Error) && !istype(errMultiMismatch, *Error)
 //@
+//@ # optFailed: did the sub-match of the last ?R fail (set right after that call, read by ?R's postcondition)
+//@ ghost optFailed bool
 //@ interface Matcher.Match
 //@   requires ctx != nil && this != nil && wfM(this) && wfToks(src) && wfToks(ctx.toks)
-//@   assigns ctx.Left, ctx.LastErr
+//@   assigns ctx.Left, ctx.LastErr, optFailed
 //@   ensures [count] 0 <= n && n <= len(src)
 //@   ensures [okerr] okErr(err)
 //@   ensures [progress] nonNull(this) && (err == nil || isDyn(err)) ==> n >= 1
@@ -108,7 +110,9 @@ package matcher
 //@
 //@ func (*gRepeat01).Match
 //@   requires p != nil && p.r != nil && wfM(p.r) && rank(p.r) < rank(Matcher(p)) && !nonNull(Matcher(p))
+//@   at call Match#1 set optFailed = (ret2 != nil)
 //@   ensures [c29.option-never-fails] err == nil
+//@   ensures [c29.option-absent-consumes-nothing] optFailed ==> n == 0 && result == nil
 //@
 //@ func (*gAdjoin).Match
 //@   requires p != nil && p.a != nil && p.b != nil && wfM(p.a) && wfM(p.b) && rank(p.a) < rank(Matcher(p)) && (nonNull(Matcher(p)) ==> nonNull(p.a))
